@@ -674,17 +674,18 @@ package compose
 //@   after call 3 append: ghost pending = len(result) > 0
 //@   at call 2 copyItem: ghost pending = false
 //@   note pending: a task whose list of next nodes (selected branch targets followed by its data successors) is non-empty has its output distributed to them (second copyItem, then the write loop) before the next completed task is looked at
+//@   at call sr.close: gadd closedCopies sr
 //@   at call 1 copyItem: assert[one_copy_per_consumer] @C19 arg1 == len(t.call.writeTo) + 2 * len(t.call.writeToBranches)
 //@   note one_copy_per_consumer: every copy made of a node's output has a consumer (one per data successor, two per branch: the condition and the selected targets); a surplus copy is never closed and keeps the source open
 //@   requires r != nil && cmOK(cm) && tablesOK(cm) && branchHandlersOK(r)
 //@   requires[tasks] forall(j int :: 0 <= j && j < len(completedTasks) ==> taskOK(r, cm, completedTasks[j], isStream))
-//@   modifies fresh(), chanCtl(cm)
+//@   modifies fresh(), chanCtl(cm), gset("closedCopies")
 //@   ensures[fresh] result2 == nil ==> wcvFresh(result0) && result1 != nil && fresh(result1)
 //@   ensures[stream_kind] result2 == nil && isStream ==> wcvStreams(result0)
 //@   ensures[sources] result2 == nil ==> wcvSources(result0, completedTasks, len(completedTasks))
 //@   ensures[ok] cmOK(cm)
 //@   loop 1:
-//@     modifies fresh(), chanCtl(cm)
+//@     modifies fresh(), chanCtl(cm), gset("closedCopies")
 //@     invariant[output_distributed_before_next_task] @C01 !pending
 //@     invariant[ok_cm] cmOK(cm)
 //@     invariant[ok_tables] tablesOK(cm)
@@ -700,12 +701,19 @@ package compose
 //@     modifies map(newDependencies), fresh()
 //@     invariant[deps_fresh] depsFresh(newDependencies)
 //@   loop 4:
-//@     modifies map(writeChannelValues), fresh()
+//@     modifies gset("closedCopies")
+//@     invariant[surplus_copies_released] @C19 len(nextNodeKeys) <= i && forall(q int :: len(nextNodeKeys) <= q && q < i && q < len(vs) ==> !is(vs[q], "streamReader") || gset("closedCopies", vs[q]))
+//@   loop 5:
+//@     modifies map(writeChannelValues), gset("closedCopies"), fresh()
 //@     invariant[fresh] wcvFresh(writeChannelValues)
 //@     invariant[stream_kind] isStream ==> wcvStreams(writeChannelValues)
 //@     invariant[vs_kind] isStream ==> forall(m int :: 0 <= m && m < len(vs) ==> is(vs[m], "streamReader"))
-//@     invariant[vs_len] len(vs) >= len(nextNodeKeys) && fresh(vs)
+//@     invariant[vs_len] @C19 len(vs) == len(nextNodeKeys) && fresh(vs)
 //@     invariant[sources] wcvSources(writeChannelValues, completedTasks, $i_1 + 1)
+//@     note not proved: when two branches select the same successor the overwritten copy is closed first (the invariant over the nested maps makes the step obligations time out); covered by probes/C19_unselected_branch_copy_leak_test.go only
+//@   loop 6:
+//@     modifies gset("closedCopies")
+//@     invariant[in_range] 0 <= i && len(t.call.writeTo) + len(t.call.writeToBranches) <= len(vs)
 
 // ---------------------------------------------------------------------------------------------------
 // graph_call_options.go, utils.go — call options (C16)
@@ -879,6 +887,7 @@ package compose
 //@   ensures[ids_in_order] result1 == nil ==> forall(i int :: 0 <= i && i < len(result0) ==> result0[i] != nil && result0[i].ToolCallID == input.ToolCalls[i].ID && result0[i].Role == "tool")
 //@   ensures[role] input.Role != "assistant" ==> result1 != nil
 //@   at call convTools: assume forall(i int :: 0 <= i && i < len(opt.ToolList) ==> opt.ToolList[i] != nil)
+//@   after call 2 fmt.Errorf: assert[failing_tool_error_is_wrapped] @C17,C13 tasks[i].err != nil && errorsIs(result, tasks[i].err)
 //@   loop 1:
 //@     modifies elems(output), fresh()
 //@     invariant[idx] 0 <= i && i <= n
@@ -892,6 +901,7 @@ package compose
 //@   requires forall(i int :: 0 <= i && i < len(opts) ==> opts[i] != nil)
 //@   ensures[role] input.Role != "assistant" ==> result1 != nil
 //@   at call convTools: assume forall(i int :: 0 <= i && i < len(opt.ToolList) ==> opt.ToolList[i] != nil)
+//@   after call 2 fmt.Errorf: assert[failing_tool_error_is_wrapped] @C17,C13 tasks[i].err != nil && errorsIs(result, tasks[i].err)
 //@   at call schema.MergeStreamReaders: assert[all_tasks_ok] len(sOutput) == len(input.ToolCalls) && forall(j int :: 0 <= j && j < n ==> tasks[j].err == nil)
 //@   loop 1:
 //@     modifies elems(sOutput), fresh()
